@@ -201,6 +201,8 @@ static const char *const num_subst[] = {
 /* ------------------------------------------------------------ mutators */
 
 static int all_numbers(const char *s, size_t n);
+static int ci_prefix(const char *s, size_t n, const char *kw);
+static const char *classify(int kind, int lineno, const char *s, size_t n);
 
 static void lf_mutate(int kind, int mut, int seedno, vt_rng_t *rng, buf_t *res)
 {
@@ -855,6 +857,172 @@ static void lf_mutate(int kind, int mut, int seedno, vt_rng_t *rng, buf_t *res)
 		    out_str(&o, num);
 		    out_add(&o, s + foff[q] + flen[q], n - foff[q] - flen[q]);
 		}
+	    }
+	}
+	break;
+    case M_KWRESTATE:
+	{
+	    /*
+	     * Re-state a header keyword LATER in the header with a different
+	     * argument (or move it across the lines that depend on it),
+	     * optionally rewriting the Touchstone 2 data section so that it
+	     * is consistent with the new value.  Header = the lines before
+	     * [Network Data] / the first data line / "data:".
+	     */
+	    int hdr_end = 0, cand[MAXLINES], nc = 0, dimc[MAXLINES], nd = 0;
+	    int src = -1, at = -1, move, rewrite;
+	    long newv = -1;
+	    int is_ports = 0, is_nfreq = 0;
+
+	    split_lines(b);
+	    for (hdr_end = 0; hdr_end < nlines; ++hdr_end) {
+		const char *s = b->p + lines_[hdr_end].off;
+		size_t n = lines_[hdr_end].len;
+		const char *c = classify(kind, hdr_end, s, n);
+
+		if (c == NULL)
+		    continue;
+		if (IS_DATA(kind) && (strcmp(c, "data") == 0 ||
+			    strcmp(c, "kw:NetworkData") == 0)) {
+		    /* [Reference] continuation lines are data lines too */
+		    if (strcmp(c, "data") == 0 && hdr_end > 0 &&
+			    IS_TOUCHSTONE(kind)) {
+			int seen_net = 0;
+
+			for (int q = hdr_end; q < nlines; ++q) {
+			    const char *c2 = classify(kind, q,
+				    b->p + lines_[q].off, lines_[q].len);
+
+			    seen_net |= c2 != NULL &&
+				strcmp(c2, "kw:NetworkData") == 0;
+			}
+			if (seen_net)
+			    continue;
+		    }
+		    break;
+		}
+		if (kind == K_VNACAL) {
+		    size_t j = 0;
+
+		    while (j < n && s[j] == ' ')
+			++j;
+		    if (n - j >= 5 && strncmp(s + j, "data:", 5) == 0)
+			break;
+		}
+	    }
+	    for (int i = 0; i < hdr_end; ++i) {
+		const char *s = b->p + lines_[i].off;
+		size_t n = lines_[i].len;
+		int digit = 0;
+
+		if (!is_keyword_line(kind, s, n))
+		    continue;
+		for (size_t j = 0; j < n; ++j)
+		    digit |= isdigit((unsigned char)s[j]) != 0;
+		cand[nc++] = i;
+		if (digit && (ci_prefix(s, n, "[number of ports]") ||
+			    ci_prefix(s, n, "#:ports") ||
+			    ci_prefix(s, n, "#:rows") ||
+			    ci_prefix(s, n, "#:columns") ||
+			    strstr(s, "rows:") == s + strspn(s, " -") ||
+			    strstr(s, "columns:") == s + strspn(s, " -")))
+		    dimc[nd++] = i;
+	    }
+	    move = vt_below(rng, 4) == 0;
+	    rewrite = vt_below(rng, 2);
+	    if (nd > 0 && vt_below(rng, 2) == 0)
+		src = dimc[vt_below(rng, nd)];	/* dimension keywords */
+	    else if (nc > 0)
+		src = cand[vt_below(rng, nc)];
+	    if (src >= 0) {
+		/* insertion point: a later header position, half of the time
+		 * the last one (just before the data) */
+		if (move && vt_below(rng, 2) == 0 && src > 0)
+		    at = vt_below(rng, src);		/* move up */
+		else if (vt_below(rng, 2) == 0 || hdr_end - src <= 1)
+		    at = hdr_end;
+		else
+		    at = src + 1 + vt_below(rng, hdr_end - src);
+		is_ports = ci_prefix(b->p + lines_[src].off, lines_[src].len,
+			"[number of ports]");
+		is_nfreq = ci_prefix(b->p + lines_[src].off, lines_[src].len,
+			"[number of frequencies]");
+	    }
+	    for (int i = 0; i <= nlines; ++i) {
+		if (i == at && src >= 0) {
+		    const char *s = b->p + lines_[src].off;
+		    size_t n = lines_[src].len, j = n, e;
+
+		    while (j > 0 && !isdigit((unsigned char)s[j - 1]))
+			--j;
+		    e = j;
+		    while (j > 0 && (isdigit((unsigned char)s[j - 1]) ||
+				s[j - 1] == '.'))
+			--j;
+		    if (move || e == 0) {
+			out_add(&o, s, n);
+		    } else {
+			char num[32];
+			long v = strtol(s + j, NULL, 10);
+
+			switch (vt_below(rng, 7)) {
+			case 0:  newv = v + 1; break;
+			case 1:  newv = v + 2; break;
+			case 2:  newv = 2 * v; break;
+			case 3:  newv = v > 1 ? v - 1 : v + 3; break;
+			case 4:  newv = 0; break;
+			case 5:  newv = v + 5; break;
+			default: newv = v; break;
+			}
+			snprintf(num, sizeof(num), "%ld", newv);
+			out_add(&o, s, j);
+			out_str(&o, num);
+			/* keep what follows the number except a fraction */
+			out_add(&o, s + e, n - e);
+		    }
+		    if (n == 0 || s[n - 1] != '\n')
+			out_str(&o, "\n");
+		}
+		if (i >= nlines || (move && i == src))
+		    continue;
+		if (rewrite && !move && newv > 0 && newv <= 8 &&
+			IS_TOUCHSTONE(kind) && (is_ports || is_nfreq) &&
+			i >= hdr_end) {
+		    /* a data section for the new value: full matrices of
+		     * newv ports (or newv frequencies of the old size) */
+		    if (i == hdr_end) {
+			long ports = is_ports ? newv : 2, nf = is_ports ? 2 : newv;
+			char tmp[64];
+
+			if (!is_ports) {
+			    for (int q = 0; q < hdr_end; ++q) {
+				const char *s = b->p + lines_[q].off;
+
+				if (ci_prefix(s, lines_[q].len,
+					    "[number of ports]"))
+				    ports = strtol(s + 17, NULL, 10);
+			    }
+			    if (ports < 1 || ports > 8)
+				ports = 2;
+			}
+			out_str(&o, "[Network Data]\n");
+			for (long f = 0; f < nf; ++f) {
+			    snprintf(tmp, sizeof(tmp), "%ld.5e9", f + 1);
+			    out_str(&o, tmp);
+			    for (long c = 0; c < ports * ports; ++c) {
+				snprintf(tmp, sizeof(tmp), " 0.%ld -0.%ld",
+					(c % 9) + 1, (f % 9) + 1);
+				out_str(&o, tmp);
+				if (c % 4 == 3 && c + 1 < ports * ports)
+				    out_str(&o, "\n   ");
+			    }
+			    out_str(&o, "\n");
+			}
+			out_str(&o, "[End]\n");
+		    }
+		    continue;
+		}
+		out_add(&o, b->p + lines_[i].off, lines_[i].len);
 	    }
 	}
 	break;
